@@ -43,7 +43,10 @@ func FreePort(host string) int {
 type ClusterOpts struct {
 	// ShardSubdir, if set, makes the shard manager keep its files in that sub-directory of the node root
 	// instead of the node root itself (the two directories are separate settings of a node)
-	ShardSubdir        string
+	ShardSubdir string
+	// RelativeDirs hands the node its directories as paths relative to the working directory, as the
+	// shipped configurations do ("./data")
+	RelativeDirs       bool
 	MaxShardSize       int64
 	MaxShardPointCount int64
 	MaxSearchLimit     int
@@ -79,6 +82,13 @@ func NewClusterNode(root string, me NodeSpec, servers []string, o ClusterOpts, s
 	}
 	if o.MaxCacheSize == 0 {
 		o.MaxCacheSize = -1
+	}
+	if o.RelativeDirs {
+		if wd, err := os.Getwd(); err == nil {
+			if rel, err := filepath.Rel(wd, root); err == nil {
+				root = rel
+			}
+		}
 	}
 	c, err := cluster.NewNode(cluster.ClusterNodeConfig{
 		RootDir: root, RpcHost: me.Host, RpcPort: me.Port, RpcTimeout: o.RpcTimeout, RpcRetries: o.RpcRetries,
